@@ -31,8 +31,11 @@ def gen_inputs(ctx):
         kind = rng.random()
         if kind < 0.5:
             tuples.append([rng.choice(U3) for _ in range(n)])
-        elif kind < 0.8:
+        elif kind < 0.72:
             tuples.append([random_sig(rng, 'abcd', 4) for _ in range(n)])
+        elif kind < 0.8:
+            # names of more than one letter, some spelled with the letters of the others
+            tuples.append([random_sig(rng, ['a', 'ab', 'ba', 'b', 'self'], 4) for _ in range(n)])
         else:
             # same names, role-consistent by construction with different star names
             base = random_sig(rng, 'abcde', 5)
